@@ -233,3 +233,36 @@ func vrfPointRegion(q []byte) *metapb.Region {
 	end := append(append([]byte{}, q...), 0)
 	return &metapb.Region{Id: 1, StartKey: q, EndKey: end}
 }
+
+// VerifC13LoadRepair: what a restart loads when storage holds, besides the default rule, a rule stored under a
+// key that is not its own store key: the rule is served, it is stored again under its own key, the
+// mismatching entry is gone, and a second restart serves
+// the same rules.
+func VerifC13LoadRepair() {
+	storage := core.NewStorage(kv.NewMemoryKV())
+	m := NewRuleManager(storage, nil)
+	if err := m.Initialize(3, nil); err != nil {
+		v.Assume(false)
+	}
+	r := &Rule{GroupID: "g", ID: "moved", Role: Voter, Count: 1, StartKeyHex: "", EndKeyHex: ""}
+	wrongKey := "g-stale-key"
+	if err := storage.SaveRule(wrongKey, r); err != nil {
+		v.Assume(false)
+	}
+	// (unparsable entries are outside: the json codec model does not decode across types)
+	m2 := NewRuleManager(storage, nil)
+	v.Assert("restart-loads", m2.Initialize(3, nil) == nil)
+	got := m2.GetRule("g", "moved")
+	v.Assert("rule-under-a-mismatching-key-is-served", got != nil && got.Count == 1)
+	keys := map[string]bool{}
+	_ = storage.LoadRules(func(k, _ string) { keys[k] = true })
+	v.Assert("mismatching-key-removed", !keys[wrongKey])
+	if got != nil {
+		v.Assert("rule-stored-under-its-own-key", keys[got.StoreKey()])
+	}
+	v.Assert("default-rule-kept", m2.GetRule("pd", "default") != nil)
+	m3 := NewRuleManager(storage, nil)
+	v.Assert("second-restart-loads", m3.Initialize(3, nil) == nil)
+	v.Assert("second-restart-serves-the-same-rules", len(m3.GetAllRules()) == len(m2.GetAllRules()) && m3.GetRule("g", "moved") != nil)
+	v.Reach("end")
+}
